@@ -16,6 +16,11 @@ erase A I | eraser A I J | clear A | sort A
 swap A B | cpa A B | mva A B                 swap, copy assignment A = B, move assignment A = std::move(B)
 cpc B | mvc B                                new root by copy / move construction
 pre A | toroot A | depth A | level A | cpos A B | cposk A I | map A | eq A B
+sortp A K                                    sort(Predicate), K = index into `predOf`
+mkl B V                                      new root object(V, child_list(B.children()))
+pushbv A B | pushfv A B | insv A I B | setv A B    the value argument is a reference to the value of node B (may be A or inside A)
+front A | back A | kids A | out A            front()/back(), begin/end + rbegin/rend + size + empty, operator<<
+obsall                                       every observer on every node (and on every pair of nodes while the forest is small)
 ```
 
 Result: `ok a=<path> [b=<path>] [some|none] | <dump>` for mutating operations, `q …` for observers, `skip:<why>` when
@@ -97,12 +102,53 @@ def excStr {α} (f : α → String) : Except Fault α → String
   | .ok a => f a
   | .error e => "fault:" ++ e.name
 
+def optVal (o : Option PT) : String :=
+  match o with
+  | some c => s!"{c.val}:{c.kids.length}"
+  | none => "none"
+
+def outStr (t : PT) : String := String.ofList (output '>' ';' t)
+
+def kidsStr (t : PT) : String :=
+  s!"fwd={intList ((fwd t).map PT.val)} rev={intList ((rev t).map PT.val)} size={sizeK t} empty={b01 (emptyK t)}"
+
+def cposStr (o : Option Nat) : String := match o with | some i => toString i | none => "none"
+
+/-- every observer on every node; on every ordered pair of nodes while there are at most `pairCap` nodes -/
+def pairCap : Nat := 14
+
+def obsAll (s : St) : String :=
+  let F := s.forest
+  let ps := pathsF 0 F
+  let per := ps.map fun p =>
+    match getF p F with
+    | none => "?"
+    | some t =>
+      s!"{pathStr p} v={t.val} l={excStr toString (level F t)} d={depth t} f={optVal (front t)} b={optVal (back t)} {kidsStr t}" ++
+      s!" pre={excStr intList (preOrder t)} tr={excStr intList (toRoot F t)} out={outStr t}"
+  let pairs :=
+    if ps.length > pairCap then "pairs=skipped" else
+      let cp := ps.flatMap fun p => ps.filterMap fun c =>
+        match getF p F, getF c F with
+        | some P, some C =>
+          match childPosition P C with
+          | some j => some s!"{pathStr p}>{pathStr c}={j}"
+          | none => none
+        | _, _ => none
+      let eqs := ps.map fun p => String.ofList (ps.map fun c =>
+        match getF p F, getF c F with
+        | some P, some C => if eqT P C then '1' else '0'
+        | _, _ => '?')
+      "cpos=" ++ ",".intercalate cp ++ " eq=" ++ ",".intercalate eqs
+  s!"q obsall n={ps.length} | " ++ " | ".intercalate per ++ " || " ++ pairs
+
 def handle (s : St) (toks : List String) : St × String :=
   let F := s.forest
   let full := F.length ≥ maxRoots
   let big := count F ≥ growCap
   match toks with
   | ["reset"] => (St.init, "ok")
+  | ["obsall"] => (s, obsAll s)
   | ["new", v] =>
     match v.toInt? with
     | some v => if full then (s, "skip:full") else if big then (s, "skip:big") else runOp s (.new v) "ok"
@@ -181,6 +227,27 @@ def handle (s : St) (toks : List String) : St × String :=
             (s, s!"q a={pa} b={pathStr b} eq={b01 e} ne={b01 (!e)}")
           | _, _ => (s, "bad-op")
         | none => (s, "bad-op")
+      else if cmd == "sortp" then
+        match v.toNat? with
+        | some k => let k := k % 4; runOp s (.sortBy a k) s!"ok a={pa} k={k}"
+        | none => (s, "bad-op")
+      else if cmd == "mkl" then
+        match v.toInt?, getF a F with
+        | some v, some t =>
+          if full then (s, "skip:full") else if count F + t.size > copyCap then (s, "skip:big")
+          else runOp s (.mkFrom a v) s!"ok b={pa}"
+        | _, _ => (s, "bad-op")
+      else if cmd == "pushbv" || cmd == "pushfv" || cmd == "setv" then
+        match sel F v with
+        | some b =>
+          match getF b F with
+          | some tb =>
+            let head := s!"ok a={pa} b={pathStr b}"
+            if cmd == "setv" then runOp s (.setVal a tb.val) head
+            else if big then (s, "skip:big")
+            else runOp s (.insV a (if cmd == "pushbv" then .back else .front) tb.val) head
+          | none => (s, "bad-op")
+        | none => (s, "bad-op")
       else (s, "bad-op")
   | [cmd, a, x, y] =>
     match sel F a with
@@ -205,6 +272,15 @@ def handle (s : St) (toks : List String) : St × String :=
         | some i, some k => if len == 0 then (s, "skip:empty") else
             let i := i % len
             runOp s (.pop a (.at i) (k != 0 && !full)) s!"ok a={pa} i={i}"
+        | _, _ => (s, "bad-op")
+      else if cmd == "insv" then
+        match x.toNat?, sel F y with
+        | some i, some b =>
+          match getF b F with
+          | some tb => if big then (s, "skip:big") else
+            let i := i % (len + 1)
+            runOp s (.insV a (.at i) tb.val) s!"ok a={pa} i={i} b={pathStr b}"
+          | none => (s, "bad-op")
         | _, _ => (s, "bad-op")
       else if cmd == "eraser" then
         match x.toNat?, y.toNat? with
@@ -234,6 +310,10 @@ def handle (s : St) (toks : List String) : St × String :=
         else if cmd == "depth" then (s, s!"q a={pa} depth={depth t}")
         else if cmd == "level" then (s, s!"q a={pa} level=" ++ excStr toString (level F t))
         else if cmd == "map" then (s, s!"q a={pa} map=" ++ dumpT none (mapT mapFn s.next t))
+        else if cmd == "front" then (s, s!"q a={pa} front={optVal (front t)}")
+        else if cmd == "back" then (s, s!"q a={pa} back={optVal (back t)}")
+        else if cmd == "kids" then (s, s!"q a={pa} " ++ kidsStr t)
+        else if cmd == "out" then (s, s!"q a={pa} out={outStr t}")
         else (s, "bad-op")
   | _ => (s, "bad-op")
 
